@@ -128,7 +128,7 @@ type twkbWriter struct {
 	hasM       bool
 	precZ      int
 	precM      int
-	scalings   [twkbMaxDimensions]float64
+	precs      [twkbMaxDimensions]int
 
 	hasBBox bool
 	hasSize bool
@@ -160,21 +160,21 @@ func newtwkbWriter(
 	}
 
 	w.precXY = precXY
-	w.scalings[0] = math.Pow10(precXY)
-	w.scalings[1] = w.scalings[0]
+	w.precs[0] = precXY
+	w.precs[1] = precXY
 	w.dimensions = 2
 
 	if hasZ {
 		w.hasZ = true
 		w.precZ = precZ
-		w.scalings[w.dimensions] = math.Pow10(precZ)
+		w.precs[w.dimensions] = precZ
 		w.dimensions++
 	}
 
 	if hasM {
 		w.hasM = true
 		w.precM = precM
-		w.scalings[w.dimensions] = math.Pow10(precM)
+		w.precs[w.dimensions] = precM
 		w.dimensions++
 	}
 
@@ -536,7 +536,7 @@ func (w *twkbWriter) writePointArray(numPoints int, coords []float64) {
 	for i := 0; i < numPoints; i++ {
 		for d := 0; d < w.dimensions; d++ {
 			fval := coords[c]
-			ival := int64(math.Round(fval * w.scalings[d]))
+			ival := int64(math.Round(twkbScaleUp(fval, w.precs[d])))
 			// Compute bounding box.
 			switch {
 			case !w.bboxValid:
